@@ -94,3 +94,12 @@ Definition q (n : Z) (d : positive) : Q := Qmake n d.
 Definition run_initial_float (oc : ocp) (nv nvc nvp : nat) (calls : list gcall) (pvals : list Q) :=
   let s := @start_values _ FloatOps oc nv nvc nvp calls pvals in
   (s_X s, s_U s, s_V s, s_VC s, s_VP s, (s_T s, s_t0 s), (s_Xi s, s_Xc s, s_Zc s)).
+
+(* der(): value of the total time derivative of e along the dynamics *)
+From RV Require Import Mech.Der.
+Definition run_der_float (ode : list expr) (es : list expr) (envs : list (list Q * list Q * list Q * Q)) :=
+  map (fun en => let '(x, u, p, t) := en in
+         let e := @mkEnv PrimFloat.float (map (@of_Q _ FloatOps) x) (map (@of_Q _ FloatOps) u) [] []
+                         (map (@of_Q _ FloatOps) p) [] [] [] [] [] (@of_Q _ FloatOps t)
+                         (@o0 _ FloatOps) (@o0 _ FloatOps) (@o0 _ FloatOps) (@o0 _ FloatOps) in
+         map (fun ex => (@eval0 _ FloatOps e (tder ode ex), @eval0 _ FloatOps e (grad_form ode ex))) es) envs.
